@@ -3744,6 +3744,28 @@ class DecVarSub(VarSub):
         expr = super().to_affine()
         return DecAffine(self.dro_model, expr, self.event_adapt, self.fixed)
 
+    def get(self, rvar=None):
+        """
+        Return the optimal solution of the selected entries of the
+        decision variable, or the coefficients of their decision rule
+        with respect to rvar, in the shape of the selection. Event-wise
+        results are returned as a series, as by DecVar.get().
+        """
+
+        values = self.dvars.get(rvar)
+        ndim = len(self.dvars.shape)
+
+        def pick(array):
+            array = np.asarray(array)
+            rest = array.shape[ndim:]
+            return array.reshape((self.dvars.size, ) + rest)[self.indices]
+
+        if isinstance(values, pd.Series):
+            return pd.Series([pick(value) for value in values],
+                             index=values.index)
+        else:
+            return pick(values)
+
     def adapt(self, rvars):
 
         self.fixed = False
